@@ -430,3 +430,147 @@ def can_fall_off(func):
     g = CFG(func)
     reach = g.reach([g.entry.id], normal)
     return sorted(g.nodes[i].lineno or 0 for i in g.falloff if i in reach), g
+
+
+def node_roots(node):
+    """the expressions actually evaluated at a CFG node"""
+    a = node.ast
+    if a is None or node.kind == 'join':
+        return []
+    if node.kind == 'test':
+        return [a.test]
+    if node.kind == 'while':
+        return [a.test]
+    if node.kind == 'for':
+        return [a.iter]
+    if node.kind == 'with':
+        return [i.context_expr for i in a.items]
+    if node.kind == 'handler':
+        return [a.type] if a.type is not None else []
+    if isinstance(a, A.FUNC_TYPES):
+        return list(a.decorator_list) + list(a.args.defaults) + [d for d in a.args.kw_defaults if d]
+    if isinstance(a, ast.ClassDef):
+        return []
+    return [a]
+
+
+def node_contains(node, target):
+    for r in node_roots(node):
+        for n in A.walk_local(r):
+            if n is target:
+                return True
+    return False
+
+
+def loop_body_paths(g, loop_node, edge_ok=normal, limit=5000):
+    """paths through one iteration of the loop whose head is `loop_node`: from the head
+    (taking its 'loop'/'true' edge) until the head is reached again or the function/loop is left"""
+    starts = [(y, k) for (y, k) in g.succ[loop_node.id] if k in ('loop', 'true')]
+    out = []
+    for (s, k0) in starts:
+        stack = [(s, [g.nodes[s]], {s})]
+        while stack:
+            x, path, seen = stack.pop()
+            nxt = [(y, k) for (y, k) in g.succ[x] if edge_ok is None or edge_ok(k)]
+            ended = False
+            for (y, k) in nxt:
+                if y == loop_node.id:
+                    out.append(path)
+                    ended = True
+                    if len(out) > limit:
+                        raise OverflowError('too many paths through loop body')
+                    continue
+                if y in seen:
+                    continue
+                stack.append((y, path + [g.nodes[y]], seen | {y}))
+            if not nxt and not ended:
+                out.append(path)
+    return out
+
+
+def loop_body_max(g, loop_node, weight, edge_ok=normal):
+    """maximum of sum(weight(node)) over the paths of one iteration of `loop_node`'s body
+    (inner loops are traversed once). Returns (max, witness path as list of Nodes)."""
+    import sys
+    sys.setrecursionlimit(max(10000, sys.getrecursionlimit()))
+    memo = {}
+    onstack = set()
+
+    def succs(x):
+        out = []
+        for (y, k) in g.succ[x]:
+            if edge_ok is not None and not edge_ok(k):
+                continue
+            if y == loop_node.id:
+                out.append(None)
+                continue
+            if k in ('back', 'continue') and g.nodes[y].kind in ('for', 'while'):
+                for (z, k2) in g.succ[y]:
+                    if k2 in ('exhausted', 'false'):
+                        out.append(z)
+                continue
+            out.append(y)
+        return out
+
+    def best(x):
+        if x in memo:
+            return memo[x]
+        if x in onstack:
+            return (0, [])
+        onstack.add(x)
+        w = weight(g.nodes[x])
+        cand = (0, [])
+        for y in succs(x):
+            if y is None:
+                continue
+            c = best(y)
+            if c[0] > cand[0] or (c[0] == cand[0] and len(c[1]) > len(cand[1])):
+                cand = c
+        onstack.discard(x)
+        memo[x] = (w + cand[0], [g.nodes[x]] + cand[1])
+        return memo[x]
+
+    res = (0, [])
+    for (y, k) in g.succ[loop_node.id]:
+        if k in ('loop', 'true'):
+            c = best(y)
+            if c[0] >= res[0]:
+                res = c
+    return res
+
+
+def function_max(g, weight, edge_ok=normal):
+    """maximum of sum(weight) over acyclic paths from entry (loops traversed once)"""
+    fake = type('L', (), {'id': -1})()
+    memo = {}
+    onstack = set()
+
+    def succs(x):
+        out = []
+        for (y, k) in g.succ[x]:
+            if edge_ok is not None and not edge_ok(k):
+                continue
+            if k in ('back', 'continue') and g.nodes[y].kind in ('for', 'while'):
+                for (z, k2) in g.succ[y]:
+                    if k2 in ('exhausted', 'false'):
+                        out.append(z)
+                continue
+            out.append(y)
+        return out
+
+    def best(x):
+        if x in memo:
+            return memo[x]
+        if x in onstack:
+            return (0, [])
+        onstack.add(x)
+        w = weight(g.nodes[x])
+        cand = (0, [])
+        for y in succs(x):
+            c = best(y)
+            if c[0] > cand[0]:
+                cand = c
+        onstack.discard(x)
+        memo[x] = (w + cand[0], [g.nodes[x]] + cand[1])
+        return memo[x]
+    return best(g.entry.id)
